@@ -253,7 +253,41 @@ impl Matcher {
         }
         merged.push(current);
 
-        merged
+        // Same-day purchases of one security form a single acquisition
+        // (TCGA92/S105(1)(a)) even when other lines separate them in the input.
+        let mut folded: Vec<GbpTransaction> = Vec::with_capacity(merged.len());
+        for tx in merged {
+            if let Operation::Buy {
+                amount: next_amount,
+                price: next_price,
+                fees: next_fees,
+            } = &tx.operation
+                && let Some(Operation::Buy {
+                    amount,
+                    price,
+                    fees,
+                }) = folded
+                    .iter_mut()
+                    .rev()
+                    .take_while(|earlier| earlier.date == tx.date)
+                    .find(|earlier| {
+                        earlier.ticker == tx.ticker
+                            && matches!(earlier.operation, Operation::Buy { .. })
+                    })
+                    .map(|earlier| &mut earlier.operation)
+            {
+                let total_cost = (*amount * *price) + (*next_amount * *next_price);
+                *amount += *next_amount;
+                if *amount != Decimal::ZERO {
+                    *price = total_cost / *amount;
+                }
+                *fees += *next_fees;
+                continue;
+            }
+            folded.push(tx);
+        }
+
+        folded
     }
 
     fn compute_cost_offsets(
